@@ -25,7 +25,7 @@ package lexer
 //@ func lexer.lexer.emitValue
 //@   property C12 C13
 //@   mode panics
-//@   requires l != nil
+//@   requires l != nil && obj(l.tokens) != obj(l)
 //@   ensures[count] len(l.tokens) == old(len(l.tokens)) + 1
 //@   ensures[stamp] l.tokens[old(len(l.tokens))].Location.Line == old(l.startLoc.Line) && l.tokens[old(len(l.tokens))].Location.Column == old(l.startLoc.Column)
 //@   ensures[value] l.tokens[old(len(l.tokens))].Kind == t && l.tokens[old(len(l.tokens))].Value == value
